@@ -3,6 +3,7 @@ pub mod core;
 pub mod drop;
 pub mod lifecycle_check;
 pub mod recovery;
+pub mod spectator;
 pub mod synctest;
 
 use crate::scenario::Scenario;
@@ -14,6 +15,7 @@ pub type JudgeFn = fn(&Scenario, &ExecResult, Option<&ExecResult>) -> Vec<Violat
 pub fn judge_for(prop: &str) -> JudgeFn {
     match prop {
         "C05" => recovery::judge,
+        "C06" => spectator::judge,
         "C07" => drop::judge,
         "C12" => lifecycle_check::judge,
         _ => core::no_judge,
